@@ -1351,11 +1351,22 @@ struct Ctx<'a> {
     case_line: String,
     /// the `recv <i>.<n> …` line of the delivery being judged (selects it on replay)
     cur: String,
+    merge_family_seen: &'a mut std::collections::BTreeSet<String>,
 }
 
 impl Ctx<'_> {
     /// oracle failure with the minimal replayable input: the case line + the delivery's line
     fn fail(&mut self, what: String) {
+        // The unauthenticated-merge family (finding F-b, notes/C35.md) fails for every command of
+        // every case: report each kind of failure of that family once per run and count the
+        // rest, so that the bounded failure list of stats.json can never hide another failure.
+        if what.contains("field class parent-to-merge") || what.contains("field class merge:") || what.contains("field class merge-") {
+            let kind: String = what.split_whitespace().next().unwrap_or("").to_string();
+            self.rec.count(&format!("merge-family-failure:{kind}"));
+            if !self.merge_family_seen.insert(kind) {
+                return;
+            }
+        }
         let input = vec![self.case_line.clone(), self.cur.clone()];
         self.rec.oracle_fail_with(what, input);
     }
@@ -1495,6 +1506,33 @@ fn batch_experiment(cx: &mut Ctx<'_>, i: usize, k: usize, class: &str, detail: &
     cx.rec.count("batch");
     let after = b.snap(w.graph);
     let what = format!("batch [{k}..{i}) + command {i}, field class {class} [{detail}] + rest");
+    // `add_commands` skips a command whose ID is already in the perspective in flight (a
+    // duplicate by id, whatever its other fields): when the changed command carries the id of an
+    // honest command earlier in this batch it is skipped and the rest of the batch goes on (up to
+    // the first child of the missing honest command).  Then: the changed command itself must not
+    // be locatable, and the honest remainder must still bring the replica to A's state.
+    let id_earlier = w.cmds[k..i].iter().any(|h| h.w.id == m.id);
+    if id_earlier && !d.authentic {
+        cx.rec.count("batch:changed-command-skipped-as-duplicate-id");
+        let honest_addr = w.cmds.iter().any(|h| h.w.address() == m.address());
+        if !honest_addr && b.exists(w.graph, m.address()) {
+            cx.fail(format!("{what}: the changed command (id of an earlier command of the batch) is locatable afterwards; wire {}", hex(&wire)));
+            return;
+        }
+        let rest: Vec<WCmd> = w.cmds[i..].iter().map(|h| h.w.clone()).collect();
+        for chunk in rest.chunks(40) {
+            if let Outcome::Added(_) = b.deliver(w.graph, &encode_message(chunk, 0), 0, &mut cx.rec.panics) {
+            } else {
+                cx.fail(format!("{what}: the honest remainder was not accepted afterwards; wire {}", hex(&wire)));
+                return;
+            }
+        }
+        let s = b.snap(w.graph);
+        if s.heads != w.final_a.heads || s.facts != w.final_a.facts {
+            cx.fail(format!("{what}: the honest remainder does not reach A's state afterwards; wire {}", hex(&wire)));
+        }
+        return;
+    }
     match out {
         Outcome::Added(n) if d.authentic || d.dup => {
             let _ = n;
@@ -1529,7 +1567,7 @@ fn batch_experiment(cx: &mut Ctx<'_>, i: usize, k: usize, class: &str, detail: &
 
 /// request lines that rebuild a case: `case <seed> <shape> <len>` then `def`/`seal` lines, then
 /// `recv <i>.<n> …` lines (the n-th change of command i; the tag selects it on replay)
-fn run_case(rec: &mut Recorder, machine: &Machine, seed: u64, shape: u64, len: usize, all: bool, only: Option<&[(usize, usize)]>) {
+fn run_case(rec: &mut Recorder, machine: &Machine, seed: u64, shape: u64, len: usize, all: bool, only: Option<&[(usize, usize)]>, seen: &mut std::collections::BTreeSet<String>) {
     rec.begin_case();
     rec.line(format!("case {seed} {shape} {len} {}", all as u8), "ok");
     let w = match vh::catch(AssertUnwindSafe(|| build_world(machine, seed, shape, len))) {
@@ -1590,7 +1628,7 @@ fn run_case(rec: &mut Recorder, machine: &Machine, seed: u64, shape: u64, len: u
         ));
     }
 
-    let mut cx = Ctx { rec, w: &w, case_line: format!("case {seed} {shape} {len} {}", all as u8), cur: String::new() };
+    let mut cx = Ctx { rec, w: &w, case_line: format!("case {seed} {shape} {len} {}", all as u8), cur: String::new(), merge_family_seen: seen };
     for i in 0..w.cmds.len() {
         let mut mrng = Rng::new(seed ^ (i as u64).wrapping_mul(0x9E37_79B9));
         let muts = mutations(&w, i, &mut mrng, all);
@@ -1737,9 +1775,9 @@ fn main() {
                 if *shape == 9 {
                     malformed_stream(rec, &machine, *seed);
                 } else if sel.is_empty() {
-                    run_case(rec, &machine, *seed, *shape, *len, *all, None);
+                    run_case(rec, &machine, *seed, *shape, *len, *all, None, &mut std::collections::BTreeSet::new());
                 } else {
-                    run_case(rec, &machine, *seed, *shape, *len, *all, Some(sel));
+                    run_case(rec, &machine, *seed, *shape, *len, *all, Some(sel), &mut std::collections::BTreeSet::new());
                 }
             }
         };
@@ -1770,11 +1808,12 @@ fn main() {
     let mut rng = Rng::new(args.seed);
     let cases = args.budget(4, 24);
     let all = args.thorough() || args.search;
+    let mut seen = std::collections::BTreeSet::new();
     for c in 0..cases {
         let seed = rng.next_u64() >> 16;
         let shape = (c as u64) % 3;
         let len = if all { rng.range(4, 9) as usize } else { rng.range(3, 5) as usize };
-        run_case(&mut rec, &machine, seed, shape, len, all, None);
+        run_case(&mut rec, &machine, seed, shape, len, all, None, &mut seen);
     }
     malformed_stream(&mut rec, &machine, rng.next_u64() >> 16);
     let _ = unhex;
